@@ -6,14 +6,21 @@ package main
 // not panic:
 //   F.m.toks F.m.p F.m.e F.m.c F.m.t(.tnc)   re-parse of the printed text (file mode)
 //   F.m.pp                                    the re-parsed tree printed again in the same print mode
+//   F.r        1 iff `repl.EvalOne` with FormatOnly (the path of `grol -format [-compact]`, one long-lived
+//              eval.State for the whole run, so every case is formatted "after other inputs") writes and
+//              returns exactly the text the printer gives for the tree, in both modes
 //   F.h        (every 40th case) 1 iff the printed texts are byte-identical when the same source is
 //              formatted again after token.Init() (fresh interning table) — history independence
 // plus the same for line mode (L.*) when the source has no newline-sensitive difference (always emitted).
 
 import (
+	"bytes"
+	"context"
 	"os"
 	"strings"
 
+	"grol.io/grol/eval"
+	"grol.io/grol/repl"
 	"grol.io/grol/token"
 )
 
@@ -41,6 +48,13 @@ func observeFormat(o *obsWriter, pfx, src string, lineMode bool) {
 		}
 		o.kv(k+"pp", printReal(rr.prog, m.compact, m.allParens))
 	}
+	if !lineMode && first[0] != "PANIC" && first[1] != "PANIC" {
+		ok := true
+		for i, m := range printModes[:2] {
+			ok = ok && replFormat(src, m.compact) == first[i]
+		}
+		o.kv(pfx+"r", b2s(ok))
+	}
 	// history independence: every 40th case, the same source after a reset of the interning table
 	// (all other cases run with the table as left by the cases before them)
 	formatCount++
@@ -59,6 +73,27 @@ func observeFormat(o *obsWriter, pfx, src string, lineMode bool) {
 }
 
 var formatCount int
+
+var replFormatState *eval.State
+
+// the formatted text as the command line and the REPL produce it
+func replFormat(src string, compact bool) (res string) {
+	defer func() {
+		if r := recover(); r != nil {
+			res = "PANIC"
+		}
+	}()
+	if replFormatState == nil {
+		replFormatState = eval.NewState()
+	}
+	var out bytes.Buffer
+	opts := repl.Options{All: true, FormatOnly: true, Compact: compact, PanicOk: true, NoColor: true}
+	cont, _, errs, formatted := repl.EvalOne(context.Background(), replFormatState, src, &out, opts)
+	if cont || len(errs) > 0 || out.String() != formatted {
+		return "MISMATCH"
+	}
+	return hx(formatted)
+}
 
 func formatRun(input string) string {
 	src := unhx(input)
